@@ -14,7 +14,6 @@
 EXTENDS WasmExec, Json, IOUtils
 
 Items == ndJsonDeserialize(IOEnv.INFILE)
-FuelPerCall == 4000
 MaxDepth == 40
 
 VARIABLES i,        \* current item
@@ -24,6 +23,8 @@ vars == <<i, k, c>>
 
 Item == Items[i]
 M == Item.module
+\* instructions per script operation before the machine gives up (status "fuel"); items may carry their own budget
+FuelPerCall == IF "fuel" \in DOMAIN Item THEN Item.fuel ELSE 4000
 
 Init == /\ i = 1 /\ k = 0 /\ c = IdleCfg(EmptyStore)
         /\ TLCSet(1, <<>>)
